@@ -234,7 +234,7 @@ def run(chk, b, tier):
                     seq.append([rng.choice(["--include", "--exclude"]), "/" + p + "/"])
         if seq:
             jobs.append((sz, repoA, REFS_A, seq, rng.choice([None, None, "refs/tags/v1"]), tmp))
-    results = R.pmap(run_seq, jobs, chunksize=16)
+    results = R.pmap(run_seq, jobs, chunksize=16, chk=chk)
     sel_sizes = set()
     for status, argv, info in results:
         chk.count()
